@@ -1,6 +1,6 @@
 (* C01 — a compiled field returns exactly what composing the user functions returns.
    Property theorems only; proofs live in Proofs/{Sim,L2,Counts,C01Main,C01Inst}.v. *)
-From Connectome Require Import Values Attrs VM Edges Evaluator L2 C01Main C01Inst EdgeFacts.
+From Connectome Require Import Values Attrs VM Edges Evaluator L2 C01Main C01Inst EdgeFacts Examples.
 Local Open Scope list_scope.
 
 (* The generic statement: ANY graph shape whose parents precede their children, ARBITRARY generator trees for
@@ -52,18 +52,6 @@ Print Assumptions C01_never_stuck.
 
 (* Non-vacuity: a diamond with a repeated parent, keyword binding, a switch, a by-value node and a barrier
    meets every hypothesis, and its specification value is the expected composition. *)
-Definition ex_g : graph :=
-  [Leaf;
-   Inner (EFunc "f" 1 [] []) [0];
-   Inner (EFunc "g" 2 [] []) [1; 1];
-   Inner (EFunc "h" 3 ["y"] []) [2; 1; 0];
-   Inner (ESwitch [(VStr "k1", 0); (VStr "k2", 1)] 2) [0; 2; 3];
-   Inner (EByValue (EFunc "bv" 1 [] [])) [4];
-   Inner EBarrier [5];
-   Inner (EProduct 2) [6; 3]].
-Definition ex_ins : list (nat * val) := [(0, VStr "k2")].
-Definition ex_apply (f : string) (pos : list val) (kw : list (string * val)) : val := VApp f pos kw.
-
 Example C01_example_hypotheses :
   wf ex_g /\ no_cache ex_g /\ 7 <= List.length ex_g /\
   spec ex_g ex_apply (fun _ _ _ => false) ex_ins WC 20 7 =
